@@ -168,17 +168,23 @@ Definition gr_ds (g : gview) (al : list nat) : bool * option (list nat) :=
   let e := grounded g in if meets al e then (true, None) else (false, Some e).
 
 (* ---------------------------------------------------------------- CO *)
+(* the selector-guarded disjunction query shared by CO-DC and ST-DC: clause (l1 \/ ... \/ lk \/ -sel),
+   one solve under the assumption sel, then (certificate-less variants) the unit clause -sel *)
+Definition guarded_disj (e : enc) (lam : M (list nat)) (close : bool) : M (option assignment) :=
+  nv <- n_vars ;;
+  let sel := zlit (1 + nv) in
+  la <- lam ;;
+  add_clause (map (arg_to_lit e) la ++ [negate sel]) ;;;
+  r <- solve [sel] ;;
+  (if close then add_clause [negate sel] else ret tt) ;;;
+  ret r.
+
 Definition co_dc (e : enc) (g : gview) (al : list nat) : M bool :=
   new_solver ;;;
   sc <- merged_m g al ;;
   let c := snd sc in
   encode_m e false (c_af c) ;;;
-  nv <- n_vars ;;
-  let sel := zlit (1 + nv) in
-  la <- locals_m c al ;;
-  add_clause (map (arg_to_lit e) la ++ [negate sel]) ;;;
-  r <- solve [sel] ;;
-  add_clause [negate sel] ;;;
+  r <- guarded_disj e (locals_m c al) true ;;
   ret (match r with Some _ => true | None => false end).
 
 Definition co_dc_cert (e : enc) (g : gview) (al : list nat) : M (bool * option (list nat)) :=
@@ -186,11 +192,7 @@ Definition co_dc_cert (e : enc) (g : gview) (al : list nat) : M (bool * option (
   let c := snd sc in
   new_solver ;;;
   encode_m e false (c_af c) ;;;
-  nv <- n_vars ;;
-  let sel := zlit (1 + nv) in
-  la <- locals_m c al ;;
-  add_clause (map (arg_to_lit e) la ++ [negate sel]) ;;;
-  r <- solve [sel] ;;
+  r <- guarded_disj e (locals_m c al) false ;;
   match r with
   | Some m =>
       let ext0 := lift c (assignment_to_extension (length (args (c_af c))) e m) in
@@ -203,60 +205,58 @@ Definition co_dc_cert (e : enc) (g : gview) (al : list nat) : M (bool * option (
 Definition st_a2e (c : comp) (m : assignment) : list nat :=
   lift c (assignment_to_extension (length (args (c_af c))) StDefault m).
 
+(* one connected component of the stable solver: a fresh session, the encoding, and the query of
+   the component; Some (m, acc): a model of the component and whether it accepts a listed
+   argument; None: the component ends the computation (no suitable stable extension) *)
+Definition st_cc (c : comp) (in_cc : list nat) (polarity : bool) : M (option (assignment * bool)) :=
+  new_solver ;;; encode_m StDefault false (c_af c) ;;;
+  match in_cc with
+  | [] =>
+      m <- solve [] ;;
+      ret (option_map (fun m => (m, false)) m)
+  | _ =>
+      if polarity then
+        m1 <- guarded_disj StDefault (ret in_cc) true ;;
+        match m1 with
+        | Some m => ret (Some (m, true))
+        | None =>
+            m2 <- solve [] ;;
+            ret (option_map (fun m => (m, false)) m2)
+        end
+      else
+        m <- solve (map (fun a => negate (arg_to_lit StDefault a)) in_cc) ;;
+        ret (option_map (fun m => (m, false)) m)
+  end.
+
+Fixpoint st_se_loop (l : list comp) (merged : list nat) : M (option (list nat)) :=
+  match l with
+  | [] => ret (Some merged)
+  | c :: r =>
+      m <- st_cc c [] false ;;
+      match m with
+      | Some (m, _) => st_se_loop r (merged ++ st_a2e c m)
+      | None => ret None
+      end
+  end.
 Definition st_se (g : gview) : M (option (list nat)) :=
   ccs <- ccs_m g ;;
-  (fix go (l : list comp) (merged : list nat) : M (option (list nat)) :=
-     match l with
-     | [] => ret (Some merged)
-     | c :: r =>
-         new_solver ;;; encode_m StDefault false (c_af c) ;;;
-         m <- solve [] ;;
-         match m with
-         | Some m => go r (merged ++ st_a2e c m)
-         | None => ret None
-         end
-     end) ccs [].
+  st_se_loop ccs [].
 
+Fixpoint st_accept_loop (al : list nat) (polarity status_on_unsat : bool) (l : list comp)
+         (merged : list nat) (found : bool) : M (bool * option (list nat)) :=
+  match l with
+  | [] => if found then ret (negb status_on_unsat, Some merged) else ret (status_on_unsat, None)
+  | c :: r =>
+      m <- st_cc c (Encoders.filter_map (cc_local c) al) polarity ;;
+      match m with
+      | Some (m, acc) => st_accept_loop al polarity status_on_unsat r (merged ++ st_a2e c m) (acc || found)
+      | None => ret (status_on_unsat, None)
+      end
+  end.
 Definition st_accept (g : gview) (al : list nat) (polarity status_on_unsat : bool)
   : M (bool * option (list nat)) :=
   ccs <- ccs_m g ;;
-  (fix go (l : list comp) (merged : list nat) (found : bool) : M (bool * option (list nat)) :=
-     match l with
-     | [] => if found then ret (negb status_on_unsat, Some merged) else ret (status_on_unsat, None)
-     | c :: r =>
-         new_solver ;;; encode_m StDefault false (c_af c) ;;;
-         let in_cc := Encoders.filter_map (cc_local c) al in
-         match in_cc with
-         | [] =>
-             m <- solve [] ;;
-             match m with
-             | Some m => go r (merged ++ st_a2e c m) found
-             | None => ret (status_on_unsat, None)
-             end
-         | _ =>
-             if polarity then
-               nv <- n_vars ;;
-               let sel := zlit (1 + nv) in
-               add_clause (map (arg_to_lit StDefault) in_cc ++ [negate sel]) ;;;
-               m1 <- solve [sel] ;;
-               add_clause [negate sel] ;;;
-               match m1 with
-               | Some m => go r (merged ++ st_a2e c m) true
-               | None =>
-                   m2 <- solve [] ;;
-                   match m2 with
-                   | Some m => go r (merged ++ st_a2e c m) found
-                   | None => ret (status_on_unsat, None)
-                   end
-               end
-             else
-               m <- solve (map (fun a => negate (arg_to_lit StDefault a)) in_cc) ;;
-               match m with
-               | Some m => go r (merged ++ st_a2e c m) found
-               | None => ret (status_on_unsat, None)
-               end
-         end
-     end) ccs [] (negb polarity).
+  st_accept_loop al polarity status_on_unsat ccs [] (negb polarity).
 Definition st_dc (g : gview) (al : list nat) := st_accept g al true false.
 Definition st_ds (g : gview) (al : list nat) := st_accept g al false true.
 
